@@ -113,3 +113,149 @@ def rand_read(it, st, args, fname):
 I.reg('crypto/rand.Read', rand_read)
 I.reg('math/rand.Read', rand_read)
 I.reg('(*crypto/rand.reader).Read', rand_read)
+
+
+# ------------------------------------------------------------------ string / byte leaves behind the stop list
+
+def _sbytes(it, st, x, what):
+    if isinstance(x, Str):
+        return list(x.b)
+    if isinstance(x, Slice):
+        return it.slice_values(st, x, what) if x.obj is not None else []
+    raise Unsupported('bytes of ' + repr(x))
+
+
+def _conc(vals):
+    return all(not is_sym(v) for v in vals)
+
+
+def _eq_at(s, off, sub):
+    return AndL(eqv8(s[off + i], sub[i]) for i in range(len(sub)))
+
+
+@I.reg('internal/stringslite.HasPrefix')
+@I.reg('strings.HasPrefix')
+@I.reg('bytes.HasPrefix')
+def s_hasprefix(it, st, args, fname):
+    s, p = _sbytes(it, st, args[0], 's'), _sbytes(it, st, args[1], 'prefix')
+    if len(p) > len(s):
+        return ret(st, False)
+    return ret(st, _eq_at(s, 0, p))
+
+
+@I.reg('internal/stringslite.HasSuffix')
+@I.reg('strings.HasSuffix')
+@I.reg('bytes.HasSuffix')
+def s_hassuffix(it, st, args, fname):
+    s, p = _sbytes(it, st, args[0], 's'), _sbytes(it, st, args[1], 'suffix')
+    if len(p) > len(s):
+        return ret(st, False)
+    return ret(st, _eq_at(s, len(s) - len(p), p))
+
+
+def _index(it, st, s, sub, last=False):
+    """index of first (last) occurrence as a term; -1 if none"""
+    n, m = len(s), len(sub)
+    if m > n:
+        return mask(-1, 64)
+    if _conc(s) and _conc(sub):
+        bs, bsub = bytes(s), bytes(sub)
+        r = bs.rfind(bsub) if last else bs.find(bsub)
+        return mask(r, 64)
+    res = mask(-1, 64)
+    rng = range(0, n - m + 1) if last else range(n - m, -1, -1)
+    for off in rng:
+        c = to_bool(_eq_at(s, off, sub))
+        if c is True:
+            res = off
+        elif c is not False:
+            res = z3.If(c, z3.BitVecVal(off, 64), bv(res, 64))
+    return res
+
+
+@I.reg('internal/stringslite.Index')
+@I.reg('internal/bytealg.IndexString')
+@I.reg('internal/bytealg.Index')
+@I.reg('strings.Index')
+@I.reg('bytes.Index')
+def s_index(it, st, args, fname):
+    return ret(st, _index(it, st, _sbytes(it, st, args[0], 's'), _sbytes(it, st, args[1], 'sep')))
+
+
+@I.reg('strings.LastIndex')
+def s_lastindex(it, st, args, fname):
+    return ret(st, _index(it, st, _sbytes(it, st, args[0], 's'), _sbytes(it, st, args[1], 'sep'), last=True))
+
+
+@I.reg('internal/stringslite.IndexByte')
+@I.reg('internal/bytealg.IndexByteString')
+@I.reg('internal/bytealg.IndexByte')
+@I.reg('strings.IndexByte')
+@I.reg('bytes.IndexByte')
+def s_indexbyte(it, st, args, fname):
+    return ret(st, _index(it, st, _sbytes(it, st, args[0], 's'), [args[1]]))
+
+
+@I.reg('strings.Contains')
+def s_contains(it, st, args, fname):
+    r = _index(it, st, _sbytes(it, st, args[0], 's'), _sbytes(it, st, args[1], 'sub'))
+    return ret(st, Not(eqv64(r, mask(-1, 64))))
+
+
+@I.reg('internal/bytealg.Equal')
+@I.reg('bytes.Equal')
+def s_equal(it, st, args, fname):
+    a, b = args
+    if isinstance(a, Slice) and isinstance(b, Slice) and (is_sym(a.len) or is_sym(b.len)):
+        raise Unsupported('bytes.Equal with symbolic lengths')
+    x, y = _sbytes(it, st, a, 'a'), _sbytes(it, st, b, 'b')
+    if len(x) != len(y):
+        return ret(st, False)
+    return ret(st, _eq_at(x, 0, y))
+
+
+@I.reg('internal/bytealg.Compare')
+@I.reg('internal/bytealg.CompareString')
+@I.reg('bytes.Compare')
+@I.reg('strings.Compare')
+def s_compare(it, st, args, fname):
+    x, y = _sbytes(it, st, args[0], 'a'), _sbytes(it, st, args[1], 'b')
+    n = min(len(x), len(y))
+    tail = 0 if len(x) == len(y) else (mask(-1, 64) if len(x) < len(y) else 1)
+    res = tail
+    for i in range(n - 1, -1, -1):
+        a, b = x[i], y[i]
+        if not is_sym(a) and not is_sym(b):
+            if a != b:
+                res = mask(-1, 64) if a < b else 1
+            continue
+        A, B = bv(a, 8), bv(b, 8)
+        res = z3.If(A == B, bv(res, 64), z3.If(z3.ULT(A, B), z3.BitVecVal(mask(-1, 64), 64), z3.BitVecVal(1, 64)))
+    return ret(st, res)
+
+
+@I.reg('internal/bytealg.CountString')
+@I.reg('internal/bytealg.Count')
+def s_count(it, st, args, fname):
+    s = _sbytes(it, st, args[0], 's')
+    c = args[1]
+    n = 0
+    for b in s:
+        e = to_bool(eqv8(b, c))
+        if e is True:
+            n = add64(n, 1)
+        elif e is not False:
+            n = add64(n, z3.If(e, z3.BitVecVal(1, 64), z3.BitVecVal(0, 64)))
+    return ret(st, n)
+
+
+@I.reg('internal/bytealg.MakeNoZero')
+def s_makenozero(it, st, args, fname):
+    n = it.concrete_int(st, args[0], 'MakeNoZero length')
+    return ret(st, it.make_slice(st, 'uint8', [0] * n))
+
+
+@I.reg('internal/stringslite.Clone')
+@I.reg('strings.Clone')
+def s_clone(it, st, args, fname):
+    return ret(st, args[0])
